@@ -6,6 +6,7 @@ import (
 	"go/constant"
 	"go/token"
 	"go/types"
+	"os"
 	"sort"
 	"strings"
 	"sync/atomic"
@@ -120,9 +121,9 @@ type Engine struct {
 	Events     int
 	Returns    []ReturnRec
 	Problems   []Problem
-	volatile   map[*ssa.Alloc]bool
-	sentinel   map[string]bool   // package-level error variables with a fixed non-nil value
-	unwrapIdx  map[string][3]int // type key -> {field index, by pointer, found} of an Unwrap() error method
+	volatile   map[*ssa.Alloc]map[int]bool // first-level fields written asynchronously (-1: the whole cell)
+	sentinel   map[string]bool             // package-level error variables with a fixed non-nil value
+	unwrapIdx  map[string][3]int           // type key -> {field index, by pointer, found} of an Unwrap() error method
 	allocOf    map[string]*ssa.Alloc
 	siteType   map[string]types.Type
 	Inlined    map[*ssa.Function]bool
@@ -148,8 +149,11 @@ func New(cfg Config) *Engine {
 		cfg.MaxSeconds = 180
 	}
 	e := &Engine{Cfg: cfg, finfo: map[*ssa.Function]*FuncInfo{}, visited: map[[20]byte]bool{},
-		volatile: map[*ssa.Alloc]bool{}, allocOf: map[string]*ssa.Alloc{}, siteType: map[string]types.Type{}, Inlined: map[*ssa.Function]bool{}, SiteClass: map[string]string{}, IVStep: map[string]int64{}, StatesAt: map[string]int{}}
+		volatile: map[*ssa.Alloc]map[int]bool{}, allocOf: map[string]*ssa.Alloc{}, siteType: map[string]types.Type{}, Inlined: map[*ssa.Function]bool{}, SiteClass: map[string]string{}, IVStep: map[string]int64{}, StatesAt: map[string]int{}}
 	e.computeVolatile()
+	if os.Getenv("FLYTSA_DEBUG_VOLATILE") != "" {
+		e.DebugVolatile()
+	}
 	e.computeSentinels()
 	return e
 }
@@ -291,7 +295,34 @@ func (e *Engine) computeVolatile() {
 			}
 		}
 	}
-	writtenFree := map[*ssa.Function]map[int]bool{}
+	// writtenFree[f][i]: the first-level fields of the object behind free variable i that f
+	// stores to (-1: the whole object, or a part that is not a first-level field)
+	writtenFree := map[*ssa.Function]map[int]map[int]bool{}
+	addW := func(f *ssa.Function, i, field int) bool {
+		if writtenFree[f] == nil {
+			writtenFree[f] = map[int]map[int]bool{}
+		}
+		if writtenFree[f][i] == nil {
+			writtenFree[f][i] = map[int]bool{}
+		}
+		if writtenFree[f][i][field] {
+			return false
+		}
+		writtenFree[f][i][field] = true
+		return true
+	}
+	// writtenDeref[f][i]: the same for the object the pointer held in free variable i points to
+	// (a captured pointer variable: `state.stopped = true` with state a captured *T)
+	writtenDeref := map[*ssa.Function]map[int]map[int]bool{}
+	addD := func(f *ssa.Function, i, field int) {
+		if writtenDeref[f] == nil {
+			writtenDeref[f] = map[int]map[int]bool{}
+		}
+		if writtenDeref[f][i] == nil {
+			writtenDeref[f][i] = map[int]bool{}
+		}
+		writtenDeref[f][i][field] = true
+	}
 	for _, f := range fns {
 		if len(f.FreeVars) == 0 {
 			continue
@@ -300,12 +331,14 @@ func (e *Engine) computeVolatile() {
 		for i, fv := range f.FreeVars {
 			idx[fv] = i
 		}
-		w := map[int]bool{}
 		for _, b := range f.Blocks {
 			for _, ins := range b.Instrs {
 				if st, ok := ins.(*ssa.Store); ok {
 					if fv, ok := rootValue(st.Addr).(*ssa.FreeVar); ok {
-						w[idx[fv]] = true
+						addW(f, idx[fv], firstField(st.Addr))
+					}
+					if fv := derefFree(rootValue(st.Addr)); fv != nil {
+						addD(f, idx[fv], firstField(st.Addr))
 					}
 				}
 				if ci, ok := ins.(ssa.CallInstruction); ok {
@@ -313,14 +346,20 @@ func (e *Engine) computeVolatile() {
 					if g := cc.StaticCallee(); g != nil && !cc.IsInvoke() {
 						for ai, a := range cc.Args {
 							if fv, ok := rootValue(a).(*ssa.FreeVar); ok && mayWrite[g][ai] {
-								w[idx[fv]] = true
+								f1 := firstField(a)
+								if a == ssa.Value(fv) {
+									f1 = -1
+								}
+								addW(f, idx[fv], f1)
+							}
+							if fv := derefFree(rootValue(a)); fv != nil && mayWrite[g][ai] {
+								addD(f, idx[fv], -1)
 							}
 						}
 					}
 				}
 			}
 		}
-		writtenFree[f] = w
 	}
 	// writes done by a nested closure through a variable its parent captured count for the parent
 	for changed := true; changed; {
@@ -335,16 +374,17 @@ func (e *Engine) computeVolatile() {
 					cf := mc.Fn.(*ssa.Function)
 					for i, bnd := range mc.Bindings {
 						fv, isFV := bnd.(*ssa.FreeVar)
-						if !isFV || !writtenFree[cf][i] {
+						if !isFV || len(writtenFree[cf][i]) == 0 {
 							continue
 						}
 						for k, pfv := range f.FreeVars {
-							if pfv == fv && !writtenFree[f][k] {
-								if writtenFree[f] == nil {
-									writtenFree[f] = map[int]bool{}
+							if pfv != fv {
+								continue
+							}
+							for fld := range writtenFree[cf][i] {
+								if addW(f, k, fld) {
+									changed = true
 								}
-								writtenFree[f][k] = true
-								changed = true
 							}
 						}
 					}
@@ -429,6 +469,9 @@ func (e *Engine) computeVolatile() {
 			for ai, a := range cc.Args {
 				if a == mc {
 					found = true
+					if g != nil && !cc.IsInvoke() && CalleeName(g) == "(*sync.Once).Do" {
+						continue // runs in place, at most once
+					}
 					if g == nil || cc.IsInvoke() || len(g.Blocks) == 0 || escapes[g][ai] {
 						return false
 					}
@@ -440,25 +483,131 @@ func (e *Engine) computeVolatile() {
 		}
 		return true
 	}
-	for _, f := range fns {
-		for _, b := range f.Blocks {
-			for _, ins := range b.Instrs {
-				mc, ok := ins.(*ssa.MakeClosure)
-				if !ok {
-					continue
+	// asyncParam[f][i] / asyncFree[f][i]: fields of the object behind parameter / free variable i
+	// of f that are written by a closure which may run asynchronously (f builds such a closure
+	// around the value, or hands the value to a function that does)
+	asyncParam := map[*ssa.Function]map[int]map[int]bool{}
+	asyncFree := map[*ssa.Function]map[int]map[int]bool{}
+	addTo := func(m map[*ssa.Function]map[int]map[int]bool, f *ssa.Function, i, fld int) bool {
+		if m[f] == nil {
+			m[f] = map[int]map[int]bool{}
+		}
+		if m[f][i] == nil {
+			m[f][i] = map[int]bool{}
+		}
+		if m[f][i][fld] {
+			return false
+		}
+		m[f][i][fld] = true
+		return true
+	}
+	// propagate: in function h the value v stands for an object whose fields in set are written
+	// asynchronously
+	propagate := func(h *ssa.Function, v ssa.Value, set map[int]bool) bool {
+		changed := false
+		r := rootValue(v)
+		direct := r == v
+		for fld := range set {
+			if !direct {
+				fld = -1 // a part of the object was handed on: keep it simple
+			}
+			switch x := r.(type) {
+			case *ssa.Alloc:
+				if e.volatile[x] == nil {
+					e.volatile[x] = map[int]bool{}
 				}
-				cf := mc.Fn.(*ssa.Function)
-				if synchronous(mc) {
-					continue // runs in place: its writes are ordinary sequential writes
+				if !e.volatile[x][fld] {
+					e.volatile[x][fld] = true
+					changed = true
 				}
-				for i, bnd := range mc.Bindings {
-					if writtenFree[cf][i] {
-						if al, ok := bnd.(*ssa.Alloc); ok {
-							e.volatile[al] = true
+			case *ssa.Parameter:
+				for i, q := range h.Params {
+					if q == x && addTo(asyncParam, h, i, fld) {
+						changed = true
+					}
+				}
+			case *ssa.FreeVar:
+				for i, q := range h.FreeVars {
+					if q == x && addTo(asyncFree, h, i, fld) {
+						changed = true
+					}
+				}
+			}
+		}
+		return changed
+	}
+	for changed := true; changed; {
+		changed = false
+		for _, f := range fns {
+			for _, b := range f.Blocks {
+				for _, ins := range b.Instrs {
+					switch x := ins.(type) {
+					case *ssa.MakeClosure:
+						cf := x.Fn.(*ssa.Function)
+						for i, bnd := range x.Bindings {
+							if !synchronous(x) && len(writtenFree[cf][i]) > 0 && propagate(f, bnd, writtenFree[cf][i]) {
+								changed = true
+							}
+							// the closure writes through the pointer the captured variable holds: the objects
+							// ever stored into that variable are written asynchronously
+							if al, isAl := bnd.(*ssa.Alloc); isAl && !synchronous(x) && len(writtenDeref[cf][i]) > 0 && al.Referrers() != nil {
+								for _, ref := range *al.Referrers() {
+									if st, ok := ref.(*ssa.Store); ok && st.Addr == ssa.Value(al) && propagate(f, st.Val, writtenDeref[cf][i]) {
+										changed = true
+									}
+								}
+							}
+							// runs in place or not: what the closure hands on to asynchronous code stays asynchronous
+							if len(asyncFree[cf][i]) > 0 && propagate(f, bnd, asyncFree[cf][i]) {
+								changed = true
+							}
+						}
+					case ssa.CallInstruction:
+						cc := x.Common()
+						if g := cc.StaticCallee(); g != nil && !cc.IsInvoke() {
+							for ai, a := range cc.Args {
+								if len(asyncParam[g][ai]) > 0 && propagate(f, a, asyncParam[g][ai]) {
+									changed = true
+								}
+							}
 						}
 					}
 				}
 			}
+		}
+	}
+}
+
+func (e *Engine) DebugVolatile() {
+	for al, set := range e.volatile {
+		fmt.Fprintf(os.Stderr, "volatile %s in %s: %v\n", al.Name(), al.Parent().Name(), set)
+	}
+}
+
+// derefFree: v is the content of a free variable (a load of the captured variable).
+func derefFree(v ssa.Value) *ssa.FreeVar {
+	if u, ok := v.(*ssa.UnOp); ok && u.Op == token.MUL {
+		if fv, ok := u.X.(*ssa.FreeVar); ok {
+			return fv
+		}
+	}
+	return nil
+}
+
+// firstField: the first-level field of the root object an address lies in (-1: the root itself,
+// or an element / nested part that is not below a first-level field).
+func firstField(v ssa.Value) int {
+	out := -1
+	for {
+		switch x := v.(type) {
+		case *ssa.FieldAddr:
+			out = x.Field
+			v = x.X
+		case *ssa.IndexAddr:
+			out = -1
+			v = x.X
+		default:
+			return out
 		}
 	}
 }
@@ -1132,14 +1281,28 @@ func setPath(v *Term, path []sel, nv *Term) *Term {
 	return nil
 }
 
-func (e *Engine) isVolatile(root *Term) bool {
+// isVolatile: the location root.path may be written by code running asynchronously (a closure
+// that is started as a task or goroutine, or stored): its content is unknown at every read.
+// Volatility is kept per first-level field of the cell.
+func (e *Engine) isVolatile(root *Term, path []sel) bool {
 	if root.K != KAlloc {
 		return false
 	}
-	if al, ok := e.allocOf[root.S]; ok {
-		return e.volatile[al]
+	al, ok := e.allocOf[root.S]
+	if !ok {
+		return false
 	}
-	return false
+	set := e.volatile[al]
+	if len(set) == 0 {
+		return false
+	}
+	if set[-1] || len(path) == 0 {
+		return true
+	}
+	if path[0].field {
+		return set[int(path[0].idx)]
+	}
+	return true
 }
 
 // Load reads memory.
@@ -1147,7 +1310,7 @@ func (e *Engine) load(st *State, addr *Term, site string) *Term {
 	addr = e.concretiseAddr(st, addr)
 	root, path, ok := addrPath(addr)
 	if root.K == KAlloc {
-		if e.isVolatile(root) {
+		if e.isVolatile(root, path) {
 			return Unknown("volatile|" + site)
 		}
 		if v, hit := st.mem[addr]; hit && len(path) > 0 {
@@ -1206,7 +1369,7 @@ func (e *Engine) store(st *State, addr, val *Term) (nonLocal bool, volatile bool
 	addr = e.concretiseAddr(st, addr)
 	root, path, ok := addrPath(addr)
 	if root.K == KAlloc {
-		if e.isVolatile(root) {
+		if e.isVolatile(root, path) {
 			return false, true
 		}
 		if !ok {
